@@ -80,6 +80,8 @@ type interpreter struct {
 	sizes              types.Sizes
 	cfg                *Config
 
+	strChars map[string][]string // symbolic strings decomposed into named code points (natives_str.go)
+
 	// path control
 	pc      *pathCtl
 	solver  *Solver
